@@ -20,10 +20,15 @@ from props import C02
 RULE = ("definitions from the nested-share stream (deliberately shared and nested shared sub-expressions across outputs) compiled with "
         "CSE on and off, Python filter (model, process/control/sensor Jacobian, sensor model blocks recorded at the lambdify seam) and "
         "generated C++ (every function body parsed back); each block: WellScoped + exact agreement with the definition / Lean derivative "
-        "(obligation), and all numeric outputs on vs off; distinct by (definition, block or point); non-trivial = the CSE block has >=1 temporary")
+        "(obligation), and all numeric outputs on vs off; distinct by (definition, block or point); non-trivial = the CSE block has >=1 temporary; "
+        "long-blocks stream: fixed models whose blocks have 36-68 statements (and a 7-state filter with a 6-reading sensor, thorough: 36 readings: 49- and 42- / 252-entry Jacobian blocks) "
+        "with the shared sub-expressions placed early, late, or everywhere in the block, flat and nested: every value with CSE on = with CSE off "
+        "= the exact value of the definition (Python and generated C++ model), generated text scanned for temporary order")
 NOTE = ["block-level theorems: C08.block_eq_inlined, wellScoped_total, on_off; `ComputesSpec` is established per block by exact rational "
         "evaluation at 4 seeded points (randomised identity test), not by a symbolic equivalence proof",
-        "C++ text scan additionally checks that no `_tk` is used before its declaration and none is declared twice"]
+        "C++ text scan additionally checks that no `_tk` is used before its declaration and none is declared twice",
+        "long-blocks stream: deterministic (no random draws); oracle = exact rational evaluation of the definition and of its sympy "
+        "derivatives at two fixed points; blocks of more than a few dozen statements are where an implementation may batch its search"]
 PARTIAL = ["sympy cse/simplify are parameters; their output is checked per instance, not verified"]
 
 
@@ -208,6 +213,7 @@ def run(ctx):
     custom_modules(ctx)
     toggled_on_an_estimator(ctx)
     floor_terms_in_a_generated_model(ctx)
+    long_blocks(ctx)
     C02.settle(ctx, drv.run(), pending)
     return core.finish(ctx, audit, NOTE, RULE, PARTIAL)
 
@@ -268,6 +274,220 @@ def floor_terms_in_a_generated_model(ctx):
             ctx.fail("cse-on-off:cpp:floor", f"generated model with floor terms: CSE on gives {on}, CSE off gives {off}", case)
         elif any(not core.close(off[k2], want[k2], scale=sc) for k2 in off):
             ctx.fail("cpp-model-value:floor", f"generated model returns {off}, the expressions give { {k2: float(v) for k2, v in want.items()} }", case)
+
+
+def long_block_definition(n, clusters, sensor_clusters=None, n_readings=0):
+    """a model with n states q00, q01, ... (a block of n statements, n*n Jacobian entries) and one control. `clusters` lists
+    (first, count, m, nested): states first .. first+count-1 all use the same m shared sub-expressions (nested: each shared term also
+    occurs inside a second shared term); every other state shares nothing with anybody. Optionally one sensor "wide" of n_readings
+    readings r00, r01, ... built the same way from `sensor_clusters`."""
+    dt, u = sympy.Symbol("dt"), sympy.Symbol("uu")
+    q = [sympy.Symbol(f"q{i:02d}") for i in range(n)]
+    R = sympy.Rational
+
+    def fill(base, coef, clusters_, size, with_dt):
+        out = {}
+        for i in range(size):
+            out[i] = base(i) * R(15 + (i % 5), 16) + (R(i + 1, 64) * dt if with_dt else R(i + 1, 64))
+        for first, count, m, nested in clusters_:
+            members = [q[(first + k) % n] for k in range(max(count, 2))]
+            terms = [members[j % len(members)] + R(j + 2, 3) * members[(j + 1) % len(members)] + R(j + 1, 4) for j in range(m)]
+            for k in range(count):
+                e = base(first + k)
+                for j, t in enumerate(terms):
+                    if nested:
+                        w = 1 + t ** 2
+                        e = e + coef * R(k + j + 1, 4) * t / w + R(1, k + 2) * w ** 2 * (u if with_dt else 1) / 8
+                    else:
+                        e = e + R(2 * (k + j) + 1, 4) * base(first + k) * t ** 2
+                out[first + k] = e
+        return out
+
+    model = fill(lambda i: q[i], dt, clusters, n, True)
+    sensors = {}
+    if n_readings:
+        rd = fill(lambda i: q[i % n], 1, sensor_clusters or [], n_readings, False)
+        sensors["wide"] = {f"r{i:02d}": sympy.sympify(e) for i, e in rd.items()}
+    d = gen.Definition(dt, q, [u], [], {q[i]: sympy.sympify(e) for i, e in model.items()}, sensors)
+    return d
+
+
+LONG_BLOCK_PROFILES = [
+    # (name, n, clusters, in the quick tier, generated C++ in the quick tier)     where in the block the shared sub-expressions sit
+    ("late-flat", 36, [(2, 3, 1, False), (32, 4, 3, False)], True, False),
+    ("late-nested", 36, [(2, 3, 1, False), (32, 4, 3, True)], True, True),
+    ("early-nested", 36, [(1, 6, 3, True), (33, 3, 1, True)], False, False),
+    ("three-groups", 68, [(0, 3, 1, False), (40, 6, 2, True), (62, 6, 4, False)], True, False),
+    ("early-flat", 40, [(1, 6, 3, False), (36, 3, 1, False)], False, False),
+    ("everywhere", 40, [(4 * k, 4, 1 + k % 3, k % 2 == 1) for k in range(10)], False, False),
+    ("one-late-group", 40, [(30, 8, 4, True)], False, False),
+]
+
+
+def long_block_points(d):
+    pts = []
+    for a, b in ((7, 11), (5, 13)):
+        pts.append({"dt": F(1, 16) if a == 7 else F(3, 32), "cal": {}, "control": {"uu": F(3, 4) if a == 7 else F(-5, 8)},
+                    "state": {s.name: F((a * i + 3) % b - b // 2, 4) for i, s in enumerate(d.state)}})
+    return pts
+
+
+def long_blocks(ctx):
+    """blocks of many statements (36 to 68 state models; the 49-entry process Jacobian, sensor model and 42-entry (thorough: 252-entry)
+    sensor Jacobian of a 7-state filter) with the shared sub-expressions early, late or everywhere in the block: with CSE on and
+    with CSE off every value equals the exact rational value of the definition (or of its sympy derivative); generated C++ model:
+    text scan for temporary order, on = off = exact value. Deterministic: no random draws."""
+    tol_before = core.DEFAULT_TOL
+    try:
+        core.set_tolerance(False)           # rational definitions: 1e-9 relative
+        _long_blocks(ctx)
+    finally:
+        core.DEFAULT_TOL = tol_before
+
+
+def _long_blocks(ctx):
+    from formak import python
+    defs = [(name, long_block_definition(n, clusters)) for name, n, clusters, quick, _ in LONG_BLOCK_PROFILES if quick or not ctx.quick]
+    cpp_profiles = {name for name, _, _, _, quick_cpp in LONG_BLOCK_PROFILES if quick_cpp or not ctx.quick}
+    for name, d in defs:
+        d._kind = "model"
+        Ls = sorted(s.name for s in d.state)
+        pts = long_block_points(d)
+        um = {s.name: e for s, e in d.state_model.items()}
+        wants = [eh.oracle_vals(um, Ls, eh.subs_map(d, pt)) for pt in pts]
+        got = {}
+        for cse in (True, False):
+            case = {"stream": "long-blocks", "profile": name, "backend": "python", "cse": cse, "def": d.describe()}
+            ctx.case(case, True); ctx.count("stream=long-blocks:python-model")
+            try:
+                with fk.quiet():
+                    pm = python.compile(fk.ui_model(d), config=python.Config(common_subexpression_elimination=cse))
+                    got[cse] = [fk.by_name(pm.model(float(pt["dt"]), pm.State(**{k: float(v) for k, v in pt["state"].items()}),
+                                                    pm.Control(**{k: float(v) for k, v in pt["control"].items()}))) for pt in pts]
+            except Exception as e:
+                ctx.fail(f"long-block-raises:{fk.exc_kind(e)}", f"model with a {len(Ls)}-statement block (cse={cse}) raises {e!r}"[:300], case)
+        for k, pt in enumerate(pts):
+            want = dict(zip(Ls, wants[k]))
+            sc = max(abs(float(v)) for v in want.values())
+            case = {"stream": "long-blocks", "profile": name, "backend": "python", "def": d.describe(), "point": eh.point_json(pt)}
+            ctx.traces += 1
+            if True in got and False in got:
+                bad = [s_ for s_ in Ls if not core.close(got[True][k][s_], got[False][k][s_], scale=sc)]
+                if bad:
+                    ctx.fail("cse-on-off:python:long-block", f"{len(Ls)}-statement model, states {bad[:4]}: CSE on gives "
+                             f"{[got[True][k][s_] for s_ in bad[:4]]}, CSE off gives {[got[False][k][s_] for s_ in bad[:4]]}, "
+                             f"the definition gives {[float(want[s_]) for s_ in bad[:4]]}", case)
+                    continue
+            for cse in got:
+                bad = [s_ for s_ in Ls if not core.close(got[cse][k][s_], want[s_], scale=sc)]
+                if bad:
+                    ctx.fail("py-model-value:long-block", f"{len(Ls)}-statement model (cse={cse}), states {bad[:4]}: returns "
+                             f"{[got[cse][k][s_] for s_ in bad[:4]]}, the definition gives {[float(want[s_]) for s_ in bad[:4]]}", case)
+                    break
+    long_block_filter(ctx)
+    # generated C++ (model only: a 40-state filter would take minutes to build)
+    jobs, metas = [], []
+    for name, d in defs:
+        if name not in cpp_profiles:
+            continue
+        for cse in (True, False):
+            case = {"stream": "long-blocks", "profile": name, "backend": "cpp", "cse": cse, "def": d.describe()}
+            ctx.case(case, True); ctx.count("stream=long-blocks:cpp-model")
+            try:
+                g = cppgen.generate(d, {}, {}, {}, ctx.scratch, f"lb{len(jobs)}", cse=cse, kind="model", rng=None)
+            except Exception as e:
+                ctx.fail(f"cpp-generate-raises:{fk.exc_kind(e)}:long-block", repr(e)[:300], case)
+                continue
+            probs = text_scan(open(g["source"]).read())
+            if probs:
+                ctx.fail("cpp-temporary-order:long-block", "; ".join(probs[:3]), case)
+            jobs.append((g, d, None)); metas.append((name, d, cse))
+    built = cppgen.build_many(jobs)
+    outs = {}
+    for (name, d, cse), (exe, err) in zip(metas, built):
+        case = {"stream": "long-blocks", "profile": name, "backend": "cpp", "cse": cse, "def": d.describe()}
+        if exe is None:
+            ctx.fail("generated-cpp-does-not-compile:long-block", f"generated model (cse={cse}) does not compile: " + err[-400:], case)
+            continue
+        try:
+            outs[(name, cse)] = cppgen.run_exe(exe, [cppgen.point_line("model", d, pt, None, kind="model") for pt in long_block_points(d)])
+        except Exception as e:
+            ctx.fail("generated-cpp-crashes:long-block", repr(e)[:300], case)
+    for name, d in defs:
+        Ls = sorted(s.name for s in d.state)
+        um = {s.name: e for s, e in d.state_model.items()}
+        for k, pt in enumerate(long_block_points(d)):
+            vals = {cse: {s_: rh.bitsf(outs[(name, cse)][k][f"model.{s_}"]) for s_ in Ls} for cse in (True, False) if (name, cse) in outs}
+            if not vals:
+                continue
+            want = dict(zip(Ls, eh.oracle_vals(um, Ls, eh.subs_map(d, pt))))
+            sc = max(abs(float(v)) for v in want.values())
+            case = {"stream": "long-blocks", "profile": name, "backend": "cpp", "def": d.describe(), "point": eh.point_json(pt)}
+            ctx.traces += 1
+            if len(vals) == 2:
+                bad = [s_ for s_ in Ls if not core.close(vals[True][s_], vals[False][s_], scale=sc)]
+                if bad:
+                    ctx.fail("cse-on-off:cpp:long-block", f"generated {len(Ls)}-statement model, states {bad[:4]}: CSE on gives "
+                             f"{[vals[True][s_] for s_ in bad[:4]]}, CSE off gives {[vals[False][s_] for s_ in bad[:4]]}, "
+                             f"the definition gives {[float(want[s_]) for s_ in bad[:4]]}", case)
+                    continue
+            for cse in vals:
+                bad = [s_ for s_ in Ls if not core.close(vals[cse][s_], want[s_], scale=sc)]
+                if bad:
+                    ctx.fail("cpp-model-value:long-block", f"generated {len(Ls)}-statement model (cse={cse}), states {bad[:4]}: returns "
+                             f"{[vals[cse][s_] for s_ in bad[:4]]}, the definition gives {[float(want[s_]) for s_ in bad[:4]]}", case)
+                    break
+
+
+def long_block_filter(ctx):
+    """a 7-state Python filter with a 6-reading sensor (thorough: 36 readings): process Jacobian (49 entries), sensor model and sensor
+    Jacobian (42 / 252 entries), shared structure in the late states / readings and (thorough: a second filter) in the early ones;
+    each with CSE on and off against the exact sympy derivative of the definition"""
+    nr = 6 if ctx.quick else 36
+    for name, clusters, sclusters in (("late", [(0, 2, 1, False), (4, 3, 3, True)], [(0, 2, 1, False), (nr - 3, 3, 2, False)]),
+                                      ("early", [(0, 3, 3, True), (5, 2, 1, False)], [(0, 3, 2, True), (nr - 2, 2, 1, False)]))[:1 if ctx.quick else 2]:
+        d = long_block_definition(7, clusters, sclusters, n_readings=nr)
+        d._kind = "ekf"
+        Ls = sorted(s.name for s in d.state)
+        Lr = sorted(d.sensors["wide"])
+        process = {"uu": F(1, 4)}
+        sensor = {"wide": {r: F(1 + i % 5, 8) for i, r in enumerate(Lr)}}
+        um = {s.name: e for s, e in d.state_model.items()}
+        pts = long_block_points(d)
+        oracle = []
+        for pt in pts:
+            sub = eh.subs_map(d, pt)
+            oracle.append((eh.oracle_jac(um, Ls, Ls, sub), [[v] for v in eh.oracle_vals(d.sensors["wide"], Lr, sub)],
+                           eh.oracle_jac(d.sensors["wide"], Lr, Ls, sub)))
+        for cse in (True, False):
+            case = {"stream": "long-blocks", "profile": f"filter-{name}", "backend": "python", "cse": cse, "def": d.describe()}
+            ctx.case(case, True); ctx.count("stream=long-blocks:python-filter")
+            try:
+                ekf = eh.compile_ekf(d, process, sensor, {}, None, cse=cse)
+                res = []
+                with fk.quiet():
+                    for pt in pts:
+                        st, ct = eh.state_obj(ekf, pt), eh.control_obj(ekf, pt)
+                        res.append((np.asarray(ekf.process_jacobian(float(pt["dt"]), st, ct), dtype=float),
+                                    np.asarray(ekf.sensor_models["wide"].model(st).data, dtype=float).reshape(-1),
+                                    np.asarray(ekf.sensor_jacobian("wide", st), dtype=float)))
+            except Exception as e:
+                ctx.fail(f"long-block-raises:{fk.exc_kind(e)}", f"7-state filter with a {nr}-reading sensor (cse={cse}) raises {e!r}"[:300], case)
+                continue
+            for pt, (G, z, H), (wG, wz, wH) in zip(pts, res, oracle):
+                wants = (("process Jacobian", G, wG), ("sensor model", z.reshape(-1, 1), wz), ("sensor Jacobian", H, wH))
+                ctx.traces += 1
+                for what, gotm, wantm in wants:
+                    sc = max(abs(float(v)) for row in wantm for v in row)
+                    bad = [(i, j) for i, row in enumerate(wantm) for j, v in enumerate(row)
+                           if gotm.shape != (len(wantm), len(row)) or not core.close(gotm[i, j], v, scale=sc)]
+                    if bad:
+                        i, j = bad[0]
+                        ctx.fail(f"cse-value:python:long-block:{what.replace(' ', '-')}",
+                                 f"{what} of {gotm.size} entries (cse={cse}): {len(bad)} entries differ from the definition's exact value, e.g. "
+                                 f"[{i}][{j}] = {gotm[i, j] if gotm.shape == (len(wantm), len(wantm[0])) else gotm.shape}, exact {float(wantm[i][j])}",
+                                 dict(case, point=eh.point_json(pt)))
+                        break
 
 
 def toggled_on_an_estimator(ctx):
